@@ -327,13 +327,20 @@ class Evaluator:
 
     def _Call(self, n):
         key = ast.unparse(n.func)
-        args = [self.ev(a) for a in n.args]
+        args = []
+        for a in n.args:
+            if isinstance(a, ast.Starred):
+                args.extend(self.ev(a.value))
+            else:
+                args.append(self.ev(a))
         kwargs = {k.arg: self.ev(k.value) for k in n.keywords if k.arg}
         if any(k.arg is None for k in n.keywords):
             raise Unfoldable("**kwargs call")
         if key in self.funcs:
             return self.funcs[key](*args, **kwargs)
         if isinstance(n.func, ast.Name):
+            if n.func.id not in self.locals and n.func.id in self.bound and callable(self.bound[n.func.id]):
+                return self.bound[n.func.id](*args, **kwargs)
             if n.func.id in self.locals and callable(self.locals[n.func.id]):
                 f = self.locals[n.func.id]
                 if f in _TYPES.values():
